@@ -67,7 +67,8 @@ var selection = concat(
 	sels("collection/stack.go", "stack_", pStk, "AddValue", "RemoveTop", "GetCapacity", "RemoveAll", "GetSize", "IsEmpty", "AsArray"),
 	sels("collection/list.go", "list_", pSeq, "InsertValue", "RemoveValue", "RemoveAll"),
 	// (e) collection/set.go: the binary search and what rests on it (the collator's RankValues is external)
-	sels("collection/set.go", "set_", pSet, "findIndex", "AddValue", "RemoveValue", "ContainsValue", "GetIndex", "GetSize", "GetValue", "IsEmpty", "AsArray"),
+	sels("collection/set.go", "set_", pSet, "findIndex", "AddValue", "RemoveValue", "ContainsValue", "GetIndex", "GetSize", "GetValue", "IsEmpty", "AsArray",
+		"AddValues", "RemoveValues", "RemoveAll"),
 	// (d) the remaining rebuild loops of list.go
 	sels("collection/list.go", "list_", pSeq1, "GetValues", "SetValue", "SetValues", "AppendValue", "AppendValues", "InsertValues", "RemoveValues"),
 )
